@@ -155,6 +155,11 @@ func VerifC14Coordinator() {
 		if verifChoose("flush", 2) == 1 {
 			verifAssert(fc.flush() == nil, "C14.coordinator.flush-error")
 		}
+		// the frontier's sequence number and offset describe the same unit: the next life numbers its
+		// units from this pair and joins them with the journal by sequence number
+		if q := fc.frontier.UnitSeq; q >= 1 && q <= 3 {
+			verifAssert(fc.frontier.Offset == offs[q], "C14.coordinator.frontier-seq-and-offset-of-different-units")
+		}
 		// the in-memory frontier never passes a unit that has not completed
 		for j := 1; j <= 3; j++ {
 			if !done[j] {
@@ -165,10 +170,15 @@ func VerifC14Coordinator() {
 	log := f.log
 	for p := 1; p <= len(log); p++ {
 		nf := verifStateAfter(log, p)
-		sp, _, ok, err := verifBisyncOutput(nf, config.ReplayModeParallel).bisyncStartPoint(context.Background(), []string{"rid1"})
+		sp, seq, ok, err := verifBisyncOutput(nf, config.ReplayModeParallel).bisyncStartPoint(context.Background(), []string{"rid1"})
 		verifAssert(err == nil && ok, "C14.coordinator.restart-fails")
 		if err != nil || !ok {
 			continue
+		}
+		if seq >= 1 && seq <= 3 {
+			verifAssert(sp.Offset == offs[seq], "C14.coordinator.resume-seq-and-offset-of-different-units")
+		} else {
+			verifAssert(seq == 0 && sp.Offset == 100, "C14.coordinator.resume-seq-and-offset-of-different-units")
 		}
 		verifAssert(sp.Offset >= 100, "C14.coordinator.resume-before-seed")
 		for k := 1; k <= 3; k++ {
